@@ -3,11 +3,26 @@
 import json, sys
 pid = sys.argv[1]
 n = int(sys.argv[2]) if len(sys.argv) > 2 else 3
+rnd = sys.argv[3] if len(sys.argv) > 3 else ""          # "" first round, "2", "3": directories wt<rnd>_<pid>, mut<rnd>_<pid>
+import glob, os
+tried = []
+if rnd:
+    for d in sorted(glob.glob("/verif/seeded/%s-*/meta.json" % pid)):
+        try:
+            tried.append(" - " + " ".join(json.load(open(d)).get("summary", "").split())[:260])
+        except Exception:
+            pass
 for l in open('/verif/properties.jsonl'):
     p = json.loads(l)
     if p['id'] == pid:
         break
-print(f"""You are a software engineer doing mutation testing of a Rust library. Your workspace is the git worktree /tmp/wt_{pid} (a checkout of the crate `pelite`, a zero-allocation parser for PE32/PE32+ binaries; read its readme.md and src/). Work ONLY inside /tmp/wt_{pid} and /tmp/mut_{pid}; do not read or use anything under /verif or /repo. No network: always build with `CARGO_NET_OFFLINE=true cargo ... --offline`.
+extra = ""
+if rnd:
+    extra = ("Colleagues already produced the changes listed below; do NOT repeat their ideas (same function AND same mechanism). This round, look in other places: "
+             "the less central code paths (format-agnostic wrappers under src/wrap, serde serializers, Display/Debug implementations, conversion helpers, iterator adaptors), "
+             "effects that show in only one of the two formats (PE32 vs PE32+) or one view kind (file vs mapped), shared helpers and constants (src/util, src/image.rs, macros) "
+             "whose change looks unrelated to the property, integer width / sign / truncation slips, and state carried between calls.\n" + "\n".join(tried) + "\n\n")
+print(f"""You are a software engineer doing mutation testing of a Rust library. Your workspace is the git worktree /tmp/wt{rnd}_{pid} (a checkout of the crate `pelite`, a zero-allocation parser for PE32/PE32+ binaries; read its readme.md and src/). Work ONLY inside /tmp/wt{rnd}_{pid} and /tmp/mut{rnd}_{pid}; do not read or use anything under /verif or /repo. No network: always build with `CARGO_NET_OFFLINE=true cargo ... --offline`.
 
 Semantic property {p['id']} — "{p['title']}":
 {p['statement']}
@@ -19,10 +34,10 @@ Task: produce {n} different small changes ("mutants") to the library source (fil
  (c) BREAKS the property above — but only under something specific: an unusual or boundary input, a particular multi-step sequence of calls, a particular argument combination, or two cooperating sites that each look fine alone. Do NOT produce changes that ordinary use (parsing a normal DLL and calling the obvious accessors) would expose at once.
 Mutants must be realistic slips a maintainer could make (off-by-one in a bound, `<` vs `<=`, wrong field or width, dropped or reordered check, swapped operands, wrapping vs checked arithmetic, stale state, wrong constant), small (1–6 changed lines), and distinct from each other (different functions / mechanisms).
 
-For each mutant i = 1..{n} create the directory /tmp/mut_{pid}/<i>/ containing:
+For each mutant i = 1..{n} create the directory /tmp/mut{rnd}_{pid}/<i>/ containing:
  * patch.diff — output of `git diff` in the worktree with only this mutant applied;
  * demo.rs — a self-contained Rust integration test file (public API of the crate only; it must build its input bytes in code or use files shipped in the repository such as demo/Demo64.dll) that, when copied to tests/mut_demo.rs of the worktree and run with `CARGO_NET_OFFLINE=true cargo test --offline --test mut_demo`, FAILS with the patch applied and PASSES on the unmodified tree;
  * meta.json — {{"property": "{pid}", "summary": "...", "needs": "what it needs in order to manifest", "files_touched": [...], "how_verified": "the commands you ran and what you observed"}}.
 Verify each mutant yourself exactly in this order: apply the patch; run the full existing suite (must pass); run the demo (must fail); `git checkout -- .`; run the demo again (must pass); delete tests/mut_demo.rs. Leave the worktree clean (`git status --short` empty) when you finish.
 
-Final report: for each mutant one line: the file/function changed, the change, what input exposes it, and confirmation of the three verification results.""")
+{extra}Final report: for each mutant one line: the file/function changed, the change, what input exposes it, and confirmation of the three verification results.""")
